@@ -132,7 +132,9 @@ def check_newfunc(spec, funcs, mods):
     isa_ = Lg.isamod.TARGETS[spec["target"]][0]
     w = Lg.build(spec)
     m = w.m
-    before = {u: (set(bs), set(m.aux_data["functionEntries"].data.get(u, ())), m.aux_data["functionNames"].data.get(u)) for u, bs in m.aux_data["functionBlocks"].data.items()}
+    before = {}
+    if "functionBlocks" in m.aux_data:  # (modules without function tables: nothing to keep)
+        before = {u: (set(bs), set(m.aux_data["functionEntries"].data.get(u, ())), m.aux_data["functionNames"].data.get(u)) for u, bs in m.aux_data["functionBlocks"].data.items()}
     ctx = RewritingContext(m, w.funcs)
     syms = {}
     tag = 200
@@ -224,6 +226,8 @@ def tasks(tier):
         t.append(("sets", name, BOUNDS[tier]["set_size"]))
         t.append(("funcdel", name, 0))
         t.append(("newfunc", name, 0))
+        if name in ("funcless-between", "two-entries", "entry-last"):
+            t.append(("newfunc", name, 1))  # same, on a module without function tables
     d = BOUNDS[tier]["chain_depth"]
     for name in ("funcless-between", "two-entries") if tier == "quick" else list(LAYOUTS):
         for first in range(chain.n_first(make_spec(name))):
@@ -243,6 +247,10 @@ def run_task(task):
         return res
     mode, name, n = task
     spec = make_spec(name)
+    if mode == "newfunc" and n == 1:
+        # the module comes without any function table: the inserted functions are the first entries
+        spec = make_spec(name, functions=False)
+        spec["tables"] = {"functionBlocks": "absent", "functionEntries": "absent", "functionNames": "absent"}
     if mode == "newfunc":
         atoms = [[]] + [[a] for a in atoms_for(spec) if a["op"] == "ins" and a["p"] == P_ORD][::3] + [[{"op": "del", "b": "A", "k": 0, "n": len(spec["sections"][0]["blocks"][0]["i"])}]]
         for funcs in NEWFUNC_CASES:
